@@ -146,6 +146,12 @@ def NoFull (P : Params) : Ranges → List (Key × Key) → Prop
   | _, [] => True
   | rs, o :: ops => (rs.insert P o.1 o.2).2 ≠ .full ∧ NoFull P (stepR P rs o) ops
 
+instance NoFull.dec (P : Params) : ∀ (rs : Ranges) (ops : List (Key × Key)), Decidable (NoFull P rs ops)
+  | _, [] => isTrue trivial
+  | rs, o :: ops =>
+    have := NoFull.dec P (stepR P rs o) ops
+    inferInstanceAs (Decidable ((rs.insert P o.1 o.2).2 ≠ .full ∧ NoFull P (stepR P rs o) ops))
+
 theorem accepted_of_noFull (P : Params) (ops : List (Key × Key)) :
     ∀ rs, NoFull P rs ops → accepted P rs ops = ops := by
   induction ops with
